@@ -47,6 +47,14 @@ impl Syms {
                 ar.put_fn_cet(a, u32::from_str_radix(m, 16).unwrap());
                 continue;
             }
+            if let Some(v) = d.strip_prefix("H=") {
+                // a 5-byte function (push imm8; pop rax; ret; nop): the entry patch covers it exactly
+                let (a, m) = v.split_once('/').unwrap();
+                let a = u64::from_str_radix(a, 16).unwrap();
+                let ar = arenas.iter().find(|x| a >= x.base && a + 5 <= x.base + x.len as u64).expect("H= outside arenas");
+                ar.put_fn5(a, u8::from_str_radix(m, 16).unwrap());
+                continue;
+            }
             if let Some(v) = d.strip_prefix("J=") {
                 // a forwarding stub: jmp rel32 to <dest> (an alias / tail-call wrapper / linker veneer)
                 let (a, t) = v.split_once('/').unwrap();
@@ -337,6 +345,9 @@ pub fn run_history(line: &str, with_diff: bool) -> String {
             for op in ops.iter() {
                 // E:<slot>:<k> — the fake!(.., times: N) expression of call site k is EVALUATED now and the pair put aside (a fixture that prepares
                 // its fakes up front); T:<t>:@<slot> installs it later.  Evaluating is not an operation of the injector: no boundary, no index.
+                // MAPNOW — the environment acts in the MIDDLE of a lifetime: somebody else maps code over the page of the trampoline released most
+                // recently, if any (the unchanged library releases none before the injector goes).  Not an operation of the injector: no boundary, no index.
+                if op == "MAPNOW" { let was = interpose::RECORD.swap(false, SeqCst); let okm = map_over_last_released(); interpose::RECORD.store(was, SeqCst); util::emit(&format!("{id} L{li} MAPNOW {okm}\n")); continue; }
                 if let Some(rest) = op.strip_prefix("E:") {
                     let (slot, k) = rest.split_once(':').unwrap();
                     STASH.lock().unwrap().insert(slot.to_string(), SendPair(Some(site(k.parse().unwrap()))));
